@@ -70,7 +70,7 @@ func runOne(ctx context.Context, sp solverSpec, file string, secs int, seed int)
 		f = file + "." + sp.name
 		txt := sp.pre + string(data)
 		if sp.rewrite != nil {
-			txt = sp.rewrite(txt)
+			txt = sp.rewrite(dropUnusedQuantDefs(txt))
 			if strings.Contains(txt, "(forall") {
 				return answer{"unknown", sp.name, "skipped (quantifiers)", 0}
 			}
@@ -220,4 +220,25 @@ func parseValues(out string) map[string]string {
 		m[mm[1]] = mm[2]
 	}
 	return m
+}
+
+// dropUnusedQuantDefs removes single-line define-funs with a quantified body whose name is not used
+// anywhere else in the query (the quantifier-free tactic pipeline can then be applied).
+func dropUnusedQuantDefs(q string) string {
+	if !strings.Contains(q, "(forall") {
+		return q
+	}
+	lines := strings.Split(q, "\n")
+	var out []string
+	for _, ln := range lines {
+		if strings.HasPrefix(ln, "(define-fun ") && strings.Contains(ln, "(forall") &&
+			strings.Count(ln, "(") == strings.Count(ln, ")") {
+			name := strings.Fields(ln)[1]
+			if strings.Count(q, name) == strings.Count(ln, name) {
+				continue
+			}
+		}
+		out = append(out, ln)
+	}
+	return strings.Join(out, "\n")
 }
